@@ -114,6 +114,20 @@ static void missed_push_check(client *c, uint64_t deadline_lo, const char *api)
                      api, c->id, (unsigned long)sim_now_ns(), t, (unsigned long)S.push_time[t], (unsigned long)deadline_lo);
 }
 
+/* "returns empty-handed in bounded time when the pool stays empty": virtual time moves by at
+ * most a millisecond per step (5*10^4 s over the longest possible run) unless it jumps to the
+ * next timer, so a blocking pop that comes back empty 10^5 virtual seconds after its deadline
+ * waited on a timer that was set wrongly.  Not in runs with far-deadline waits, whose timers
+ * the clock may legitimately jump to. */
+static void late_return_check(client *c, uint64_t deadline_hi, const char *api)
+{
+    if (S.far_waits)
+        return;
+    uint64_t now = sim_now_ns();
+    SIM_CHECK(now < deadline_hi + 100000ULL * 1000000000ULL, "pool:blocking-pop-overslept",
+              "%s of client %d returned empty-handed %.0f virtual seconds after its deadline", api, c->id, (double)(now - deadline_hi) * 1e-9);
+}
+
 static int push_end(int arg)
 {
     /* RANDWS: creation-type contexts push to the head, everything else to the tail */
@@ -263,12 +277,14 @@ static void do_op(client *c, int op, int arg)
             } else {
                 S.waits_empty++;
                 missed_push_check(c, dl_lo, "ABT_pool_pop_wait");
+                late_return_check(c, dl_lo + 1000000000ULL, "ABT_pool_pop_wait");
             }
             hend(o);
             break;
         }
         case O_POPTW: {
             lin_op *o = hbegin(c, LIN_POP, LIN_HEAD, 1);
+            uint64_t t_call = sim_now_ns();
             double abst = (double)(sim_now_ns() + sim_quantum_ns() * (uint64_t)(3 + (arg >> 3) % 300)) * 1e-9;
             int far = S.far_waits && (arg >> 3) % 5 == 1;
             uint64_t deadline = 0;
@@ -289,6 +305,7 @@ static void do_op(client *c, int op, int arg)
             } else {
                 S.waits_empty++;
                 missed_push_check(c, (uint64_t)(abst * 1e9), "ABT_pool_pop_timedwait");
+                late_return_check(c, (uint64_t)(abst * 1e9) > t_call ? (uint64_t)(abst * 1e9) : t_call, "ABT_pool_pop_timedwait");
             }
             hend(o);
             break;
